@@ -2,7 +2,7 @@ PROPERTIES = ['C19', 'C02']
 BOUNDS = {
     'quick': 'span<T,N> and span<T> over a block of exactly N elements, N = 0..6 enumerated; offset/count/index symbolic over all of size_t under the documented precondition; '
              'first<C>/last<C>/subspan<O,C>: every valid (O,C) incl. defaulted Count instantiated and selected by a symbolic value; T = int; array<int,N> N = 0..6',
-    'thorough': 'as quick with N = 0..8 and T in {int, unsigned char, long long, 12-byte struct}',
+    'thorough': 'as quick with N = 0..8 and T in {int, unsigned char, long long, 12-byte struct} (element-copy check of subspan: int and unsigned char only)',
 }
 ASSUMPTIONS = ['C19/span: documented preconditions assumed: first/last count <= size(); subspan offset <= size() and (count == dynamic_extent or count <= size() - offset); operator[] idx < size(); front/back on non-empty',
                'C19/span: etl::as_bytes/as_writable_bytes of a static-extent span do not compile on the pinned tree (defect reported in evidence notes); they are exercised for dynamic extent only',
@@ -23,6 +23,8 @@ def queries(tier, prop='C19'):
             for se in (0, 1):
                 es = ALWAYS + (NONEMPTY if n else []) + ([] if se else ['bytes'])
                 if se == 0: es = es + ARRAY + (ARRAY_NONEMPTY if n else [])
+                if ESZ[t] > 4:   # the element-by-element copy check with a symbolic offset does not finish in 120 s for 8/12-byte elements (thorough run): int and unsigned char only
+                    es = [e for e in es if e != 'subspan_copy']
                 for e in es:
                     out.append(dict(entry='q_' + e, cfg={'ELT': t, 'LEN': n, 'STATIC_EXT': se}, unwind=max(n * ESZ[t], 8) + 3, budget=120, ub=ub, nofunc=ub))
     return out
